@@ -900,3 +900,8 @@ U_MEDZ = Unit(P + '/Medium.impedance', ['Medium.impedance'], t_medium_impedance,
               canaries=[Canary('impedance-without-the-square-root', 'Medium.impedance', _ImpedanceNoRoot, [P + '/Medium.impedance/'])])
 
 UNITS = [U_READS, U_GROUND, U_REFL, U_LOOKUP, U_LOOKUP_LEMMA, U_FRESNEL, U_LIMIT, U_SPLIT, U_TABLES, U_MEDZ]
+
+
+# the far field of a request is computed from the media as they ARE at the request: compute_far_field keeps nothing derived
+# from the ground constants between calls (assigns clause and state inventory of C14)
+EXTRA_UNITS = [('contracts.C14', 'U_ASSIGNS'), ('contracts.C14', 'U_INV')]
